@@ -121,7 +121,7 @@ def correspondences(tier, rng):
         """the PROPERTY on the implementation: the rebased tents sum to the original tent on the new range"""
         t, L = x
         l, p, u = t
-        if not ((l < p or p <= -1) and (p < u or p >= 1)): return None      # continuous tents only
+        if not ((l < p or p <= L[0]) and (p < u or p >= L[2])): return None      # tents continuous on the new range (hypothesis `good` of solve_exact)
         if l < 0 < u: return None
         try:
             sols = impl_rebase(x)
